@@ -92,6 +92,12 @@ def run(prop: str, tier: str, seed: int) -> int:
                     rep.violation(c, {"T": e[2], "input": e[3], "expected": exp, "actual": e[4], "channel": "V"})
         if devents:
             rep.sample({"channel": "V", "event": devents[len(devents) // 2]})
+    if prop == "C05":
+        # discriminated variants: the tag selects an existing class whose own field is missing / invalid -- the variant's documented
+        # error must surface on a cold and on a warm registry alike (histories of the C12 state machine, fault alphabet)
+        from harness.checks import c12
+        c12.histories(rep, wd, [(s, True, False) for s in ("config", "field", "codec")], 3 if tier == "quick" else 5, faults=True,
+                      clause="C05", label_extra=" fault alphabet")
     if prop == "C08":
         # keyword arguments on lazily compiled classes: the FIRST call must already honour them (sys/Mashumaro.tla histories)
         from harness.checks import sys_props
